@@ -34,7 +34,8 @@ func encVal(v any) (typ, val string) {
 	case time.Duration:
 		return "duration", strconv.FormatInt(int64(x), 10)
 	default:
-		return fmt.Sprintf("%T", v), fmt.Sprint(v)
+		// anything else is no field type of kapacitor's data model (Go int, float32, ...)
+		return fmt.Sprintf("go:%T", v), fmt.Sprint(v)
 	}
 }
 
